@@ -60,6 +60,15 @@ func subsetOf(a, b map[string]bool) bool {
 	return true
 }
 
+func keysRaw(s map[string]bool) []string {
+	var o []string
+	for k := range s {
+		o = append(o, k)
+	}
+	sort.Strings(o)
+	return o
+}
+
 func keys(s map[string]bool) []string {
 	var o []string
 	for k := range s {
@@ -726,6 +735,37 @@ func C05(tier string) int {
 				}
 			}
 		}
+	}
+	// one Actor serving the same outbox PATH under two schemes (https first, then plain http through the
+	// ...Scheme entry point, or the reverse): the wrapping Create names the owner of THE outbox posted to
+	for _, order := range [][2]string{{"https", "http"}, {"http", "https"}} {
+		a := BaseWorld()
+		httpAlice := strings.Replace(Alice, "https://", "http://", 1)
+		a.PutDoc(person(httpAlice))
+		a.Outboxes[httpAlice+"/outbox"] = nil
+		var owners []string
+		for _, scheme := range order {
+			a.LocalScheme = scheme
+			alice := Alice
+			if scheme == "http" {
+				alice = httpAlice
+			}
+			sc := &Scenario{Name: "c05/one-actor-two-schemes/" + scheme, Kind: ap.Both, Entry: "PostOutbox", URL: outbox(Alice), Body: Doc("Note", "", "content", "n", "to", Carol)}
+			out := sc.On(a, nil)
+			nMix++
+			if out.Panic != nil || out.Err != nil || len(a.Outboxes[alice+"/outbox"]) == 0 {
+				owners = nil
+				break
+			}
+			var st map[string]interface{}
+			json.Unmarshal(a.Store[a.Outboxes[alice+"/outbox"][0]], &st)
+			owners = append(owners, strings.Join(keysRaw(idSet(st["actor"])), ","))
+			if !idSet(st["actor"])[alice] || len(idSet(st["actor"])) != 1 {
+				res.Violate("scheme|wrapping-create-names-another-outbox-owner", fmt.Sprintf("one Actor, outboxes %v in turn: the bare Note posted to the %s outbox is wrapped in a Create by %v, the outbox belongs to %s", order, scheme, keysRaw(idSet(st["actor"])), alice),
+					M{"check": "C05", "part": "scheme", "order": order})
+			}
+		}
+		res.Case(fmt.Sprintf("one-actor-two-schemes|%v|%v", order, owners))
 	}
 	res.Evaluations += nMix
 	res.Extra["inputs"] = len(ins)
